@@ -6,5 +6,5 @@ CONSTANTS
   Alphabet <- AlphaAndOr
   ItemAlphabet <- NoItems
   Mode = "c02"
-INVARIANT Laws
+INVARIANT Emit
 CHECK_DEADLOCK FALSE
